@@ -4,7 +4,7 @@
 From Coq Require Import Reals ZArith List Bool String.
 From Celer Require Import Base.Num Base.NumR Base.Vec3 C12.Surfaces C12.Transforms
   C09.Shapes C09.Pipeline C09.ShapesProofs C09.PipelineProofs
-  C09.BZone C09.BZoneProofs C09.Dedup C09.DedupProofs C09.GenPrismBranch.
+  C09.BZone C09.BZoneProofs C09.BZoneRepair C09.BZoneRepairProofs C09.Dedup C09.DedupProofs C09.GenPrismBranch.
 Import ListNotations.
 Local Open Scope R_scope.
 
@@ -352,3 +352,31 @@ Theorem C09_genprism_exact_faces_iff_inside : forall tol hz lo hi p,
   (all_hold (genprism_surfaces tol hz lo hi DegNone) p = true <-> inside_genprism hz lo hi p = true).
 Proof. exact genprism_exact_iff_inside. Qed.
 Print Assumptions C09_genprism_exact_faces_iff_inside.
+
+(** ** BoundingZone.cc before / after the repair of calc_difference (proposed fix of F5, first half).
+    The check selects the model by reading the source: [bz_intersection] / [bz_union] while the defect is
+    present, [bz_intersection_fix] / [bz_union_dfix] once calc_difference returns a null interior. *)
+Theorem C09_bzone_difference_before_repair_refuted :
+  exists a b RA RB p, zone_sound a RA /\ zone_sound b RB /\ zneg (bz_intersection a b) = false /\
+    in_box (zint (bz_intersection a b)) p = true /\ ~ (RA p /\ RB p).
+Proof. exact bz_difference_refuted. Qed.
+Print Assumptions C09_bzone_difference_before_repair_refuted.
+
+(** after the repair: calc_intersection is sound for EVERY combination of negation flags *)
+Theorem C09_bzone_intersection_repaired_sound : forall a b RA RB,
+  zone_sound a RA -> zone_sound b RB -> zone_sound (bz_intersection_fix a b) (fun p => RA p /\ RB p).
+Proof. exact bz_intersection_repaired_sound. Qed.
+Print Assumptions C09_bzone_intersection_repaired_sound.
+
+(** calc_union with the repaired difference but the code's operand order: sound for equal flags, still
+    refuted for mixed flags (the swap is pinned by BoundingZoneTest.calc_union and is NOT part of the fix) *)
+Theorem C09_bzone_union_after_difference_repair_sound_partial : forall a b RA RB, zneg a = zneg b ->
+  zone_sound a RA -> zone_sound b RB -> zone_sound (bz_union_dfix a b) (fun p => RA p \/ RB p).
+Proof. exact bz_union_dfix_sound_same. Qed.
+Print Assumptions C09_bzone_union_after_difference_repair_sound_partial.
+
+Theorem C09_bzone_union_after_difference_repair_refuted :
+  exists a b RA RB p, zone_sound a RA /\ zone_sound b RB /\ zneg (bz_union_dfix a b) = true /\
+    in_box (zext (bz_union_dfix a b)) p = false /\ ~ (RA p \/ RB p).
+Proof. exact bz_union_dfix_refuted. Qed.
+Print Assumptions C09_bzone_union_after_difference_repair_refuted.
